@@ -55,6 +55,7 @@ def get_nbt_type(tokens: list[Token]) -> NBTType | None:
     )
     __is_entity_nbt = (
         tokens[0].string.startswith("@")
+        and len(tokens[0].string) > 1
         and tokens[0].string[1] in "parsen"
         and (
             __is_nbt_operator(tokens[1])
